@@ -2309,7 +2309,8 @@ protected:
 		clear();
 		if (0 == rhs) return *this;
 		bool s = (rhs < 0);
-		uint64_t raw = static_cast<uint64_t>(s ? -rhs : rhs);
+		// magnitude in unsigned arithmetic: -rhs overflows (undefined behaviour) for the most negative value
+		uint64_t raw = s ? (0ull - static_cast<uint64_t>(rhs)) : static_cast<uint64_t>(rhs);
 
 		int msb = static_cast<int>(find_msb(raw)) - 1; // msb > 0 due to zero test above 
 		int exponent = msb;
